@@ -6,7 +6,7 @@ reachable; the body returns normally for every outcome (a failed or timed-out it
 
 Unit executor_life (V, S-model): the six `tokio::spawn(async move { .. })` bodies + register_execution_start/finish (C12, and C11's
 call-site obligations: the concurrency limit handed to for_each_concurrent, the timeout variant chosen iff futures_timeout != 0)."""
-from engine.extract import FnSpec, Rule, DropChain, DropStatement
+from engine.extract import FnSpec, Rule, DropChain, DropStatement, ReplaceBlocksNumbered
 from engine.verus_run import Unit, Lemma
 
 F = "src/stream_executor.rs"
@@ -146,3 +146,190 @@ UNIT_ITEMS = Unit("executor_items", ITEMS, spec=SPEC,
                                "closure capture mechanics are dropped by lifting (R15): the closure body text is verified as a method taking the captured variables as parameters",
                                "futures::StreamExt::for_each / for_each_concurrent call the closure exactly once per item (assumed)"])
 UNITS = [UNIT_ITEMS]
+
+# ------------------------------------------------------------------------------------------------------------------------------------
+# executor_life (C12 + C11 call sites)
+# ------------------------------------------------------------------------------------------------------------------------------------
+LIFE_SPEC = r"""
+#[derive(Clone, Copy)]
+pub struct Instruments { pub bits: usize }
+impl Instruments {
+    #[verifier::external_body] pub fn cheap_profiling(self) -> bool { unimplemented!() }
+    #[verifier::external_body] pub fn metrics(self) -> bool { unimplemented!() }
+    #[verifier::external_body] pub fn logging(self) -> bool { unimplemented!() }
+    #[verifier::external_body] pub fn tracing(self) -> bool { unimplemented!() }
+}
+#[derive(Clone, Copy, PartialEq, Eq)]
+pub enum ExecutorStatus { NotStarted, Running, ScheduledToFinish, ProgrammaticallyEnded, StreamEnded }
+/// shim of the atomic_enum-generated AtomicExecutorStatus (S-model: exact sequential semantics)
+pub struct AtomicExecutorStatus { pub v: ExecutorStatus }
+impl AtomicExecutorStatus {
+    pub open spec fn view(&self) -> ExecutorStatus { self.v }
+    #[verifier::external_body]
+    pub fn load(&self, o: Ordering) -> (r: ExecutorStatus) ensures r == self@ { unimplemented!() }
+    #[verifier::external_body]
+    pub fn store(&mut self, v: ExecutorStatus, o: Ordering) ensures final(self)@ == v { }
+    #[verifier::external_body]
+    pub fn compare_exchange(&mut self, cur: ExecutorStatus, new: ExecutorStatus, o1: Ordering, o2: Ordering) -> (r: Result<ExecutorStatus, ExecutorStatus>)
+        ensures old(self)@ == cur ==> r is Ok && final(self)@ == new,
+                old(self)@ != cur ==> r is Err && final(self)@ == old(self)@,
+    { unimplemented!() }
+}
+pub struct Stream { pub v: u8 }
+impl Instant { #[verifier::external_body] pub fn elapsed(&self) -> Duration { unimplemented!() } }
+
+/// where the task body is (ghost)
+pub enum Phase { Fresh, Started, ItemsDone, FinishRegistered, CallbackDone }
+
+pub struct StreamExecutor {
+    pub instruments: Instruments,
+    pub futures_timeout: Duration,
+    pub creation_time: Instant,
+    pub executor_status: AtomicExecutorStatus,
+    pub execution_start_delta_nanos: AtomicU64,
+    pub execution_finish_delta_nanos: AtomicU64,
+    /// ghost: the last value the (monotone) clock `creation_time.elapsed()` returned
+    pub clock: Ghost<nat>,
+    pub phase: Ghost<Phase>,
+    /// ghost: invocations of stream_ended_callback
+    pub close_cb_calls: Ghost<nat>,
+    /// ghost: how the stream was driven: the concurrency limit in force (1 for for_each)
+    pub used_limit: Ghost<nat>,
+    /// ghost: which tokio task body was spawned (0: no per-item timeout, 1: with timeout)
+    pub spawned_arm: Ghost<Option<nat>>,
+}
+impl StreamExecutor {
+    pub open spec fn ended(&self) -> bool { self.executor_status@ is StreamEnded || self.executor_status@ is ProgrammaticallyEnded }
+    /// `self.creation_time.elapsed().as_nanos() as u64`: ASSUMED monotone (minstant clock)
+    #[verifier::external_body]
+    pub fn elapsed_nanos(&mut self) -> (r: u64)
+        ensures r as nat >= old(self).clock@, final(self).clock@ == r as nat, final(self).same_but_clock(old(self)),
+    { unimplemented!() }
+    pub open spec fn same_but_clock(&self, o: &Self) -> bool {
+        self.executor_status == o.executor_status && self.execution_start_delta_nanos == o.execution_start_delta_nanos
+        && self.execution_finish_delta_nanos == o.execution_finish_delta_nanos && self.phase == o.phase && self.close_cb_calls == o.close_cb_calls
+        && self.used_limit == o.used_limit && self.futures_timeout == o.futures_timeout && self.spawned_arm == o.spawned_arm
+    }
+    /// ASSUMED contract of `stream.for_each(item_processor).await`: returns after the closure ran for every item (each item's obligations:
+    /// unit executor_items); meanwhile another thread may call report_scheduled_to_finish() (Running -> ScheduledToFinish)
+    #[verifier::external_body]
+    pub fn run_for_each(&mut self, stream: Stream)
+        requires old(self).phase@ is Started, old(self).executor_status@ is Running,
+        ensures final(self).phase@ is ItemsDone, final(self).used_limit@ == 1,
+                final(self).executor_status@ is Running || final(self).executor_status@ is ScheduledToFinish,
+                final(self).execution_start_delta_nanos == old(self).execution_start_delta_nanos, final(self).clock == old(self).clock,
+                final(self).close_cb_calls == old(self).close_cb_calls, final(self).futures_timeout == old(self).futures_timeout, final(self).spawned_arm == old(self).spawned_arm,
+    { }
+    /// ASSUMED contract of `stream.for_each_concurrent(limit, item_processor).await` (at most `limit` item futures in flight)
+    #[verifier::external_body]
+    pub fn run_for_each_concurrent(&mut self, stream: Stream, limit: usize)
+        requires old(self).phase@ is Started, old(self).executor_status@ is Running,
+        ensures final(self).phase@ is ItemsDone, final(self).used_limit@ == limit as nat,
+                final(self).executor_status@ is Running || final(self).executor_status@ is ScheduledToFinish,
+                final(self).execution_start_delta_nanos == old(self).execution_start_delta_nanos, final(self).clock == old(self).clock,
+                final(self).close_cb_calls == old(self).close_cb_calls, final(self).futures_timeout == old(self).futures_timeout, final(self).spawned_arm == old(self).spawned_arm,
+    { }
+    /// `stream_ended_callback(self).await` -- C12's obligations are its PRECONDITION: it runs after the last item (phase), after the
+    /// finish was registered, and finds an 'ended' status with finish time >= start time; it is an FnOnce, so calling it twice is a failure
+    #[verifier::external_body]
+    pub fn stream_ended_callback(&mut self)
+        requires old(self).phase@ is FinishRegistered, old(self).ended(),
+                 old(self).execution_finish_delta_nanos@ >= old(self).execution_start_delta_nanos@,
+        ensures final(self).close_cb_calls@ == old(self).close_cb_calls@ + 1, final(self).phase@ is CallbackDone,
+                final(self).used_limit == old(self).used_limit, final(self).executor_status == old(self).executor_status, final(self).spawned_arm == old(self).spawned_arm,
+    { }
+    /// `tokio::spawn(async move { <task body k> })` -- ASSUMED to run the task; which body was handed over is recorded
+    #[verifier::external_body]
+    pub fn spawn_task(&mut self, arm: usize)
+        ensures final(self).spawned_arm@ == Some(arm as nat), final(self).futures_timeout == old(self).futures_timeout,
+    { }
+}
+"""
+
+LIFE_MACROS = ["on_executor_start", "on_executor_end"] + ITEM_MACROS
+DROP_PROC = DropStatement("R15-closure-def", r"let item_processor = ", count=1, note="the item_processor closure definition is verified separately (unit executor_items)")
+DROP_REPORT = DropChain("R9-stats-report", r"if Self::INSTRUMENTS\.logging\(\) && Self::INSTRUMENTS\.cheap_profiling\(\)", count=1,
+                        note="the statistics report of on_executor_end! (format!/warn! only) is dropped")
+LIFE_COMMON = [DROP_PROC, DROP_REPORT,
+               Rule("R15-self_ref-def", r"let self_ref: &Self = &self;", "", min=0),
+               Rule("R15-errcb-ref-def", r"let on_err_callback_ref = &on_err_callback;", "", min=0),
+               Rule("R15-self_ref", r"\bself_ref\b", "self", min=0),
+               Rule("R15-INSTRUMENTS", r"Self::INSTRUMENTS\b", "self.instruments", min=1),
+               Rule("R10-callback", r"stream_ended_callback\([^()]*(?:\([^()]*\))?[^()]*\)\.await;", "self.stream_ended_callback();", min=1, note="close callback invocation"),
+               Rule("R11-finish-phase", r"(self\.register_execution_finish\(\);)", r"\1", count=1)]
+FOR_EACH_ASYNC = [Rule("R10-for_each", r"stream\.for_each\(item_processor\)\.await", "self.run_for_each(stream)", count=1),
+                  Rule("R10-for_each_concurrent", r"stream\.for_each_concurrent\(([^,]+), item_processor\)\.await", r"self.run_for_each_concurrent(stream, \1)", count=1)]
+FOR_EACH_SYNC = [Rule("R10-for_each", r"stream\.for_each\(\|(\w+)\| \{\s*item_processor\(\1\);\s*future::ready\(\(\)\)\s*\}\)\.await", "self.run_for_each(stream)", count=1),
+                 Rule("R10-for_each_concurrent", r"stream\.for_each_concurrent\(([^,]+), \|(\w+)\| \{\s*item_processor\(\2\);\s*future::ready\(\(\)\)\s*\}\)\.await", r"self.run_for_each_concurrent(stream, \1)", count=1)]
+TASK_ENS = ("final(self).close_cb_calls@ == old(self).close_cb_calls@ + 1, final(self).phase@ is CallbackDone, final(self).ended(),"
+            "final(self).used_limit@ == concurrency_limit as nat")
+
+
+def task(fnname, out, nth, sync):
+    f = FnSpec(F, fnname, impl=IMPL, out_name=out, block_anchor=r"tokio::spawn\(async move\s*(?=\{)", block_nth=nth, macros=LIFE_MACROS,
+               sig=f"pub fn {out}(&mut self, concurrency_limit: u32, stream: Stream)", sig_anchor=r"\bfn " + fnname + r"\b",
+               rules=LIFE_COMMON + (FOR_EACH_SYNC if sync else FOR_EACH_ASYNC),
+               requires="old(self).phase@ is Fresh", ensures=TASK_ENS, props=["C12", "C11"])
+    f.container = CONTAINER
+    return f
+
+
+def plain(name, **kw):
+    f = FnSpec(F, name, impl=IMPL, **kw)
+    f.container = CONTAINER
+    return f
+
+
+ELAPSED_NANOS = Rule("R11-clock", r"self\.creation_time\.elapsed\(\)\.as_nanos\(\) as u64", "self.elapsed_nanos()", count=1, note="clock read -> monotone clock shim")
+SPAWN_NUMBERED = None
+LIFE = [
+    plain("register_execution_start", props=["C12"],
+          sig="pub fn register_execution_start(&mut self)", sig_anchor=r"fn register_execution_start\(&self\)",
+          rules=[Rule("R11-clock-let", r"self\.execution_start_delta_nanos\.store\(self\.creation_time\.elapsed\(\)\.as_nanos\(\) as u64, Relaxed\);",
+                      "let now = self.elapsed_nanos(); self.execution_start_delta_nanos.store(now, Relaxed);", count=1, note="argument evaluated first (borrow order), clock shim")],
+          tail="\n        proof { self.phase@ = Phase::Started; }\n",
+          requires="old(self).phase@ is Fresh",
+          ensures="final(self).executor_status@ is Running, final(self).phase@ is Started, final(self).execution_start_delta_nanos@ as nat <= final(self).clock@,"
+                  "final(self).close_cb_calls == old(self).close_cb_calls, final(self).futures_timeout == old(self).futures_timeout, final(self).spawned_arm == old(self).spawned_arm"),
+    plain("register_execution_finish", props=["C12"],
+          sig="pub fn register_execution_finish(&mut self)", sig_anchor=r"fn register_execution_finish\(&self\)",
+          rules=[Rule("R11-clock-let", r"self\.execution_finish_delta_nanos\.store\(self\.creation_time\.elapsed\(\)\.as_nanos\(\) as u64, Relaxed\);",
+                      "let now = self.elapsed_nanos(); self.execution_finish_delta_nanos.store(now, Relaxed);", count=1, note="argument evaluated first (borrow order), clock shim")],
+          tail="\n        proof { self.phase@ = Phase::FinishRegistered; }\n",
+          requires="old(self).phase@ is ItemsDone, old(self).execution_start_delta_nanos@ as nat <= old(self).clock@, old(self).executor_status@ is Running || old(self).executor_status@ is ScheduledToFinish",
+          ensures="final(self).ended(), final(self).phase@ is FinishRegistered,"
+                  "final(self).executor_status@ is ProgrammaticallyEnded ==> old(self).executor_status@ is ScheduledToFinish,"
+                  "final(self).executor_status@ is StreamEnded ==> old(self).executor_status@ is Running,"
+                  "final(self).execution_finish_delta_nanos@ >= final(self).execution_start_delta_nanos@, final(self).execution_start_delta_nanos == old(self).execution_start_delta_nanos,"
+                  "final(self).close_cb_calls == old(self).close_cb_calls, final(self).used_limit == old(self).used_limit, final(self).futures_timeout == old(self).futures_timeout, final(self).spawned_arm == old(self).spawned_arm",
+          loops={0: "invariant_except_break self.phase == old(self).phase, self.clock == old(self).clock, self.execution_start_delta_nanos == old(self).execution_start_delta_nanos, self.close_cb_calls == old(self).close_cb_calls,"
+                    " self.used_limit == old(self).used_limit, self.futures_timeout == old(self).futures_timeout, self.spawned_arm == old(self).spawned_arm, self.execution_finish_delta_nanos == old(self).execution_finish_delta_nanos,"
+                    " self.executor_status == old(self).executor_status, self.executor_status@ is Running || self.executor_status@ is ScheduledToFinish,\n"
+                    "ensures self.phase == old(self).phase, self.clock == old(self).clock, self.execution_start_delta_nanos == old(self).execution_start_delta_nanos, self.close_cb_calls == old(self).close_cb_calls,"
+                    " self.used_limit == old(self).used_limit, self.futures_timeout == old(self).futures_timeout, self.spawned_arm == old(self).spawned_arm, self.execution_finish_delta_nanos == old(self).execution_finish_delta_nanos,"
+                    " self.ended(), self.executor_status@ is ProgrammaticallyEnded ==> old(self).executor_status@ is ScheduledToFinish, self.executor_status@ is StreamEnded ==> old(self).executor_status@ is Running,\n"
+                    "decreases 0int,"}),
+    task("spawn_executor", "task_fallible_futures_no_timeout", 0, False),
+    task("spawn_executor", "task_fallible_futures_with_timeout", 1, False),
+    task("spawn_futures_executor", "task_plain_futures_no_timeout", 0, False),
+    task("spawn_futures_executor", "task_plain_futures_with_timeout", 1, False),
+    task("spawn_fallibles_executor", "task_fallible_sync", 0, True),
+    task("spawn_non_futures_executor", "task_fallible_sync_no_callback", 0, True),
+    task("spawn_non_futures_non_fallibles_executor", "task_plain_sync", 0, True),
+]
+
+SPAWN_RULES = [ReplaceBlocksNumbered("R15-task-bodies", r"tokio::spawn\(", "self.spawn_task({k})", count=2, note="the two task bodies are verified separately (task_* obligations)"),
+               Rule("R17-match-zero", r"match self\.futures_timeout \{\s*Duration::ZERO => \{", "if self.futures_timeout.is_zero() { {", count=1, note="`match d { Duration::ZERO => A, _ => B }` -> `if d.is_zero() A else B`"),
+               Rule("R17-match-else", r"\},\s*_ => \{", "} } else { {", count=1),
+               Rule("R17-match-close", r"\},\s*\}\s*$", "} }", count=1)]
+for _name in ("spawn_executor", "spawn_futures_executor"):
+    LIFE.append(plain(_name, props=["C11", "C12"],
+                      sig=f"pub fn {_name}(&mut self, concurrency_limit: u32)", sig_anchor=r"pub fn " + _name + r"<",
+                      rules=SPAWN_RULES,
+                      ensures="final(self).spawned_arm@ == Some(if old(self).futures_timeout.is_zero() { 0nat } else { 1nat })"))
+
+UNIT_LIFE = Unit("executor_life", LIFE, spec=LIFE_SPEC,
+                 trusted=["futures::StreamExt::for_each / for_each_concurrent, tokio::spawn, the close callback, the minstant clock (monotone): external_body shims with the contracts printed in the unit's spec"],
+                 assumptions=["S-model: report_scheduled_to_finish() racing the end (a `store` that may overwrite an ended state) is NOT covered",
+                              "out-of-order completion inside for_each_concurrent and real scheduling are outside the model"])
+UNITS = [UNIT_ITEMS, UNIT_LIFE]
